@@ -111,6 +111,10 @@ def scenario(root, srcname, srcform, oloc, eloc, verbose, fname="prog.asm"):
             p = os.path.join(root, "out", which + "-dir")
             os.makedirs(p)
             return p, p, False
+        if loc == "source":
+            # the source file itself named as output: refused, the source stays as it is
+            p = os.path.join(proj, fname)
+            return p, p, False
         if loc == "fsize":
             # a location that takes only the beginning of the file: the process runs under a file size limit of 2 KiB
             p = os.path.join(root, "out", which + "-limited.hex")
@@ -128,6 +132,8 @@ def scenario(root, srcname, srcform, oloc, eloc, verbose, fname="prog.asm"):
         argv += ["-e", earg if srcform != "rel-dir" or earg.startswith("/dev") else os.path.relpath(earg, cwd)]
     if verbose:
         argv.append("-v")
+    if "source" in (oloc, eloc):
+        ow = ew = False         # a run that names its source as an output is refused as a whole
     return argv, cwd, opath, epath, ow, ew
 
 
@@ -202,6 +208,11 @@ def check(prop, tier, seed):
             for srcform in ("abs", "rel-dir", "rel-here"):
                 for oloc, eloc in (("default", "default"), ("writable", "default")):
                     combos.append((srcname, srcform, oloc, eloc, False, "link.asm"))
+        for srcname in ("code+eeprom", "code", "fail-pass2"):
+            for srcform in ("abs", "rel-here"):
+                combos.append((srcname, srcform, "source", "default", False, "prog.asm"))
+                if srcname != "code":       # (an -e that is not needed and names the source: refusing or ignoring it are both fine)
+                    combos.append((srcname, srcform, "default", "source", False, "prog.asm"))
         # the same file named for both images
         for srcname in ("code+eeprom", "code", "fail-pass2"):
             for srcform, oloc in (("abs", "writable"), ("rel-here", "default"), ("rel-dir", "existing")):
